@@ -189,3 +189,50 @@ Section NoLimit2.
     now apply (v5_roundtrip_unsubscribe_gen c u w c').
   Qed.
 End NoLimit2.
+
+(* ------------------------------------------------------------------ CONNECT *)
+Theorem v5_roundtrip_connect_gen c k w c' mi mc npi r :
+  connect_ok k = true ->
+  encodev c (EPacket (Connect k)) = ((w, Ok tt), c') ->
+  let sz := connect_encoded_size k (max_size_of c) in
+  (mi = 0 \/ sz <= mi) ->
+  decode_step mi mc npi FrameHeader (w ++ r) =
+    (Ok (Some (DPacket (Connect k) sz)), FrameHeader, negb (c_request_problem_info k), r).
+Proof.
+  intros Hok H sz Hm. apply encodev_packet_inv in H. cbv zeta in H.
+  assert (He : effective c (Connect k) = Connect k) by (unfold effective; destruct (ec_no_problem_info c); reflexivity).
+  rewrite He in H. destruct H as (_ & Hs & _ & body & Hf & Hb & Hlen).
+  pose proof (max_size_le c) as HL. cbn [body_encode packet_encoded_size first_byte] in *.
+  apply (connect_roundtrip k (max_size_of c)) in Hb; [|lia|assumption].
+  eapply (frame_decode_step mi mc npi _ _ _ _ r (Connect k) Hf Hlen); [reflexivity|exact Hm|].
+  rewrite decode_packet_connect, Hb. reflexivity.
+Qed.
+
+Theorem v5_roundtrip_connect c mi mc npi k :
+  ec_max_out_size c = 0 -> connect_ok k = true -> rt_statement c mi mc npi (Connect k).
+Proof.
+  intros Hmax Hok w c' r H sz Hm. subst sz. rewrite <- (max_size_nolimit c Hmax) in *.
+  now apply (v5_roundtrip_connect_gen c k w c').
+Qed.
+
+(* every packet kind, no limit configured *)
+Definition packet_ok (p : packet) : Prop :=
+  match p with
+  | Connect k => connect_ok k = true
+  | Subscribe s => subscribe_ok s = true
+  | Unsubscribe u => unsubscribe_ok u = true
+  | PingRequest | PingResponse => True
+  | _ => diag_packet_ok p = true /\ diag_fits p MAX_PACKET_SIZE
+  end.
+
+Theorem v5_roundtrip c mi mc npi p :
+  ec_max_out_size c = 0 -> ec_no_problem_info c = false -> packet_ok p -> rt_statement c mi mc npi p.
+Proof.
+  intros Hmax Hnpi Hok. destruct p; cbn [packet_ok] in Hok;
+    try (apply rt_diag; tauto).
+  - now apply v5_roundtrip_connect.
+  - now apply v5_roundtrip_subscribe.
+  - now apply v5_roundtrip_unsubscribe.
+  - now apply v5_roundtrip_ping.
+  - now apply v5_roundtrip_ping.
+Qed.
